@@ -153,18 +153,22 @@ def api_stream(ctx, budget, sink):
 
 def correspondence(ctx):
     cs = cases(ctx, 1)
-    a = impl.pmap(impl.peg_rule, cs, chunk=32)
-    b = model.run([['peg', r, t] for r, t in cs])
     api_stream(ctx, 1, ctx.disagreements.append)
     okrules = {}
-    for c, x, y in zip(cs, a, b):
-        ctx.evaluations += 1; ctx.count('peg_cases'); ctx.count('peg_' + str(x[0]))
-        if not compare(x, y):
-            ctx.disagreements.append(('peg', {'rule': c[0], 'text': c[1]}, x[:2], y[:2] if isinstance(y, list) else y))
-        elif x[0] == 'OK':
-            okrules[c[0]] = okrules.get(c[0], 0) + 1
-            if size(impl.collapse_runs(x[2])) >= 3:
-                ctx.nontrivial(c)
+    # in batches: the dumped parse trees of both sides are large (a thorough run holds a quarter of a million of them)
+    for i in range(0, len(cs), 5000):
+        part = cs[i:i + 5000]
+        a = impl.pmap(impl.peg_rule, part, chunk=32)
+        b = model.run([['peg', r, t] for r, t in part])
+        for c, x, y in zip(part, a, b):
+            ctx.evaluations += 1; ctx.count('peg_cases'); ctx.count('peg_' + str(x[0]))
+            if not compare(x, y):
+                ctx.disagreements.append(('peg', {'rule': c[0], 'text': c[1]}, x[:2], y[:2] if isinstance(y, list) else y))
+            elif x[0] == 'OK':
+                okrules[c[0]] = okrules.get(c[0], 0) + 1
+                if size(impl.collapse_runs(x[2])) >= 3:
+                    ctx.nontrivial(c)
+        del a, b
     rules = all_rules()
     ctx.stats['rules'] = len(rules)
     ctx.stats['rules_accepting_some_input'] = len(okrules)
